@@ -24,7 +24,7 @@ EXTENDS Integers, Sequences, FiniteSets, TLC
 (***************************************************************************)
 Classes == [
     string |-> {"empty", "str", "dur", "dur-zero", "dur-neg", "dur-bad", "maddr", "maddr-bad", "path", "hex32", "peerid",
-                "wrongtype", "null", "absent"},
+                "wrongtype", "null", "absent", "path-rel", "path-abs", "path-dotdot"},
     number |-> {"zero", "one", "typ", "neg", "big", "frac", "wrongtype", "null", "absent"},
     bool   |-> {"true", "false", "wrongtype", "null", "absent"},
     array  |-> {"arr-empty", "arr-typ", "arr-str", "arr-maddr", "arr-bad", "wrongtype", "null", "absent"},
@@ -95,12 +95,21 @@ NotDropped(f) ==
      /\ ~f.isdefault /\ <<f.section, f.setting>> \notin Legacy)
         => f.rel \notin {"default", "absent"}
 
+\* File and folder settings (found by name: file, folder, dir, path) are given relative, absolute and ".."
+\* paths through a config.Manager that has a real base directory (scope "basedir": the setting alone;
+\* "basedir-together": all file settings of the section at once, e.g. a certificate with its key), the files
+\* and folders existing.  What is saved is the CONFIGURED value, not the value resolved against the base
+\* directory: Save(Load(j)) reproduces it literally.
+PathClasses == {"path-rel", "path-abs", "path-dotdot"}
+PathReproduced(f) == (f.outcome = "accepted" /\ f.class \in PathClasses) => f.rel = "same"
+
 BrokenLoadLaws(f) ==
-    {l \in {"NoPanic", "AcceptedValid", "Stable", "NotDropped"} :
+    {l \in {"NoPanic", "AcceptedValid", "Stable", "NotDropped", "PathReproduced"} :
         CASE l = "NoPanic" -> ~NoPanic(f)
           [] l = "AcceptedValid" -> ~AcceptedValid(f)
           [] l = "Stable" -> ~Stable(f)
-          [] l = "NotDropped" -> ~NotDropped(f)}
+          [] l = "NotDropped" -> ~NotDropped(f)
+          [] l = "PathReproduced" -> ~PathReproduced(f)}
 
 \* a value Validate rejects is refused by LoadJSON (zero may instead be taken as "use the default")
 RejectedAtLoad(f) ==
